@@ -18,10 +18,18 @@ type Run struct {
 	N int  `json:"n"`
 }
 type CaseC14 struct {
-	Algo     string   `json:"algo"`
-	Runs     []Run    `json:"runs,omitempty"`
-	Raw      HexBytes `json:"raw,omitempty"`
-	Consumed int      `json:"consumed"` // bytes written before the data and read away again
+	Algo     string    `json:"algo"`
+	Runs     []Run     `json:"runs,omitempty"`
+	Raw      HexBytes  `json:"raw,omitempty"`
+	Consumed int       `json:"consumed"`       // bytes written before the data and read away again
+	Then     []C14Edit `json:"then,omitempty"` // afterwards the SAME buffer is changed (in place, or reset and refilled) and checksummed again
+}
+
+// C14Edit: one later state of the same buffer memory.
+type C14Edit struct {
+	Kind string   `json:"kind"`          // patch: bytes at Off are overwritten in place; refill: Reset, then Data is written (same backing array)
+	Off  int      `json:"off,omitempty"` // patch offset (mod len)
+	Data HexBytes `json:"data"`
 }
 
 func (c *CaseC14) data() []byte {
@@ -101,6 +109,29 @@ func oracleC14(c *CaseC14) *Failure {
 	got2, _ := libChecksum(c.Algo, buf)
 	if got2 != got {
 		return failf("C14/"+c.Algo+"/unstable", "second Calc returned %d, first %d", got2, got)
+	}
+	// the same memory with other content: the result is a function of the bytes given, not of what the buffer
+	// (or the service) saw before
+	for i, e := range c.Then {
+		switch e.Kind {
+		case "patch":
+			b := buf.Bytes()
+			if len(b) == 0 || len(e.Data) == 0 {
+				continue
+			}
+			off := e.Off % len(b)
+			copy(b[off:], e.Data)
+		case "refill":
+			buf.Reset()
+			buf.Write(e.Data)
+		default:
+			continue
+		}
+		cur := append([]byte{}, buf.Bytes()...)
+		g, _ := libChecksum(c.Algo, buf)
+		if w := int64(refChecksum(c.Algo, cur)); g != w {
+			return failf("C14/"+c.Algo+"/value-after-buffer-reuse", "%s over %d bytes after the buffer was changed (%s, step %d): library %d (%#x), reference %d (%#x)", c.Algo, len(cur), e.Kind, i, g, g, w, w)
+		}
 	}
 	return nil
 }
